@@ -407,3 +407,32 @@ func ShortFn(fn *ssa.Function) string {
 	s = strings.ReplaceAll(s, "github.com/sergi/go-diff/", "")
 	return s
 }
+
+// UniqueField returns the only field of the struct behind t whose type satisfies pred.
+func UniqueField(t types.Type, pred func(types.Type) bool) (string, bool) {
+	st := StructOf(t)
+	if st == nil {
+		return "", false
+	}
+	name, n := "", 0
+	for i := 0; i < st.NumFields(); i++ {
+		if pred(st.Field(i).Type()) {
+			name = st.Field(i).Name()
+			n++
+		}
+	}
+	return name, n == 1
+}
+
+// IsNamedType reports whether t (through pointers) is the named type pkgPath.name.
+func IsNamedType(t types.Type, pkgPath, name string) bool {
+	for {
+		if p, ok := t.(*types.Pointer); ok {
+			t = p.Elem()
+			continue
+		}
+		break
+	}
+	n, ok := t.(*types.Named)
+	return ok && n.Obj().Pkg() != nil && n.Obj().Pkg().Path() == pkgPath && n.Obj().Name() == name
+}
